@@ -165,6 +165,40 @@ func checkInFrame(c inFrameCase) evid.Outcome {
 	if !got.Equal(want) && !(s.Name == "DutyCycleReq" && got["MaxDCycle"] == int64(pl[0])) {
 		return evid.Fail("MType %d (%s) frame carrying %s with payload %x in %s: decoded fields %v (as %T), the specification layout for this direction gives %v", c.MType, dirName(s.Uplink), s.Name, pl, c.Where, got, mc.Payload, want)
 	}
+	if c.Where == "frm0" {
+		// the same frame as it is received: the port-0 payload encrypted with the network session key (reference
+		// keystream), opened in the documented order - decode, decode the (absent) FOpts, decrypt the FRMPayload
+		var k ref.Key
+		for i := range k {
+			k[i] = c.Fill ^ byte(0x31*i+7)
+		}
+		for fcnt := uint32(0); fcnt < 24; fcnt++ {
+			ef := f
+			ef.FCnt = fcnt
+			ef.FRM = ref.Keystream(k, s.Uplink, ef.DevAddr, fcnt, stream)
+			var e lorawan.PHYPayload
+			if err := e.UnmarshalBinary(ef.Encode()); err != nil {
+				return evid.Fail("MType %d frame %x (port 0, encrypted commands) does not decode: %v", c.MType, ef.Encode(), err)
+			}
+			if err := e.DecodeFOptsToMACCommands(); err != nil {
+				return evid.Fail("MType %d frame %x (port 0, no FOpts): DecodeFOptsToMACCommands: %v", c.MType, ef.Encode(), err)
+			}
+			if err := e.DecryptFRMPayload(lorawan.AES128Key(k)); err != nil {
+				return evid.Fail("MType %d frame %x (port 0, commands %x encrypted with %x, FCnt %d): decode, DecodeFOptsToMACCommands, DecryptFRMPayload: %v", c.MType, ef.Encode(), stream, k[:], fcnt, err)
+			}
+			em := e.MACPayload.(*lorawan.MACPayload)
+			if len(em.FRMPayload) != 3 {
+				return evid.Fail("MType %d frame %x (port 0, commands %x encrypted with %x, FCnt %d): decode, DecodeFOptsToMACCommands, DecryptFRMPayload give %d commands, the stream holds 3", c.MType, ef.Encode(), stream, k[:], fcnt, len(em.FRMPayload))
+			}
+			emc, ok := em.FRMPayload[1].(*lorawan.MACCommand)
+			if !ok || byte(emc.CID) != s.CID || emc.Payload == nil {
+				return evid.Fail("MType %d frame %x (port 0, commands %x encrypted with %x, FCnt %d): the second command decodes as %+v", c.MType, ef.Encode(), stream, k[:], fcnt, em.FRMPayload[1])
+			}
+			if eg := gen.Flatten(emc.Payload); !eg.Equal(want) && !(s.Name == "DutyCycleReq" && eg["MaxDCycle"] == int64(pl[0])) {
+				return evid.Fail("MType %d frame %x (port 0, %s payload %x encrypted with %x, FCnt %d) opened by decode, DecodeFOptsToMACCommands, DecryptFRMPayload: fields %v, the specification layout gives %v", c.MType, ef.Encode(), s.Name, pl, k[:], fcnt, eg, want)
+			}
+		}
+	}
 	return evid.Outcome{NonTrivial: true, Class: fmt.Sprintf("%s/mtype%d/%s", s.Name, c.MType, c.Where)}
 }
 
@@ -467,8 +501,8 @@ type rawCase struct {
 }
 
 func genRaw(t *rapid.T) rawCase {
-	what := rapid.SampledFrom([]string{"joinaccept12", "joinaccept28", "joinaccept28", "joinreq", "rejoin02", "rejoin1", "cflist", "cflist", "data"}).Draw(t, "what")
-	n := map[string]int{"joinaccept12": 12, "joinaccept28": 28, "joinreq": 18, "rejoin02": 14, "rejoin1": 19, "cflist": 16}[what]
+	what := rapid.SampledFrom([]string{"joinaccept12", "joinaccept28", "joinaccept28", "joinreq", "rejoin02", "rejoin1", "cflist", "cflist", "data", "data", "eui64", "devaddr", "netid", "aes128key"}).Draw(t, "what")
+	n := map[string]int{"joinaccept12": 12, "joinaccept28": 28, "joinreq": 18, "rejoin02": 14, "rejoin1": 19, "cflist": 16, "eui64": 8, "devaddr": 4, "netid": 3, "aes128key": 16}[what]
 	if what == "data" {
 		n = rapid.IntRange(7, 40).Draw(t, "n")
 	}
@@ -652,6 +686,49 @@ func checkRaw(c rawCase) evid.Outcome {
 			return evid.Fail("MACPayload bytes %x decode to %x (FPort %d), specification layout gives %x (FPort %d)", []byte(b), got.MACPayloadBytes(), got.FPort, want.MACPayloadBytes(), want.FPort)
 		}
 		return evid.Outcome{NonTrivial: len(want.FOpts) > 0 && want.FPort >= 0, Class: "data/accepted"}
+	case "eui64", "devaddr", "netid", "aes128key":
+		// the Go value holds the most significant octet first, the wire the least significant one first
+		rev := make([]byte, len(b))
+		for i := range b {
+			rev[len(b)-1-i] = b[i]
+		}
+		var enc func() ([]byte, error)
+		var dec func([]byte) ([]byte, error)
+		switch c.What {
+		case "eui64":
+			var v, w lorawan.EUI64
+			copy(v[:], b)
+			w = v // decoded into a used value
+			enc, dec = func() ([]byte, error) { return v.MarshalBinary() }, func(in []byte) ([]byte, error) { err := w.UnmarshalBinary(in); return w[:], err }
+		case "devaddr":
+			var v, w lorawan.DevAddr
+			copy(v[:], b)
+			w = v
+			enc, dec = func() ([]byte, error) { return v.MarshalBinary() }, func(in []byte) ([]byte, error) { err := w.UnmarshalBinary(in); return w[:], err }
+		case "netid":
+			var v, w lorawan.NetID
+			copy(v[:], b)
+			w = v
+			enc, dec = func() ([]byte, error) { return v.MarshalBinary() }, func(in []byte) ([]byte, error) { err := w.UnmarshalBinary(in); return w[:], err }
+		default:
+			var v, w lorawan.AES128Key
+			copy(v[:], b)
+			w = v
+			enc, dec = func() ([]byte, error) { return v.MarshalBinary() }, func(in []byte) ([]byte, error) { err := w.UnmarshalBinary(in); return w[:], err }
+		}
+		out, err := enc()
+		if err != nil || !bytes.Equal(out, rev) {
+			return evid.Fail("%s value %x: MarshalBinary gives %x (err %v), little-endian octet order gives %x", c.What, []byte(b), out, err, rev)
+		}
+		back, err := dec(append([]byte{}, b...))
+		if err != nil || !bytes.Equal(back, rev) {
+			return evid.Fail("%s: the wire octets %x decode (UnmarshalBinary) to the value %x (err %v), little-endian octet order gives %x", c.What, []byte(b), back, err, rev)
+		}
+		pal := true
+		for i := range b {
+			pal = pal && b[i] == rev[i]
+		}
+		return evid.Outcome{NonTrivial: !pal, Class: c.What}
 	}
 	return evid.Outcome{Skip: true}
 }
@@ -680,7 +757,7 @@ func TestProp(t *testing.T) {
 		}, checkPayloadBytes)
 
 	evid.Exhaustive(r, t, "commands-in-frames",
-		"every MAC command that carries a payload x each of the two data message types of its direction (unconfirmed, confirmed) x FOpts / port-0 FRMPayload x 4 payload byte patterns, the command placed between two payload-less commands: the frame is built by the wire model, decoded by the library (UnmarshalBinary + DecodeFOptsToMACCommands / DecodeFRMPayloadToMACCommands) and the command's fields must be the model's reading of the payload bytes for that direction. Every case is non-trivial.",
+		"every MAC command that carries a payload x each of the two data message types of its direction (unconfirmed, confirmed) x FOpts / port-0 FRMPayload x 4 payload byte patterns, the command placed between two payload-less commands: the frame is built by the wire model, decoded by the library (UnmarshalBinary + DecodeFOptsToMACCommands / DecodeFRMPayloadToMACCommands) and the command's fields must be the model's reading of the payload bytes for that direction; the port-0 frames also as they are received, encrypted with the reference keystream under 24 frame counters and opened in the documented order (decode, DecodeFOptsToMACCommands, DecryptFRMPayload). Every case is non-trivial.",
 		true,
 		func(emit func(inFrameCase)) {
 			for i := range ref.Specs {
@@ -720,6 +797,6 @@ func TestProp(t *testing.T) {
 		150000, 15000000, genVal, checkVal)
 
 	evid.Rapid(r, t, "join-cflist-fhdr-bytes",
-		"rapid: arbitrary bytes of the right size for join-accept (12/28), join-request, rejoin 0/2, rejoin 1, CFList (type 0/1), data MACPayload (7..40 bytes, FOptsLen mostly consistent): library decode == model decode (little-endian fields, reserved bits ignored), re-encode == input where the structure has no reserved bits; a decoded data frame kept by value still reads the same after its variable decoded the next frame; a join-accept with one field pushed out of its range (JoinNonce >= 2^24, RXDelay > 15, RX2DataRate > 15, RX1DROffset > 7) is refused, or what is emitted has the specification's length with every other field in place. Non-trivial: join-accept with reserved RxDelay bits or CFList; data frame with FOpts and FPort.",
+		"rapid: arbitrary bytes of the right size for join-accept (12/28), join-request, rejoin 0/2, rejoin 1, CFList (type 0/1), data MACPayload (7..40 bytes, FOptsLen mostly consistent), and the four identifier types EUI64 / DevAddr / NetID / AES128Key (MarshalBinary and UnmarshalBinary against a written-out octet reversal): library decode == model decode (little-endian fields, reserved bits ignored), re-encode == input where the structure has no reserved bits; a decoded data frame kept by value still reads the same after its variable decoded the next frame; a join-accept with one field pushed out of its range (JoinNonce >= 2^24, RXDelay > 15, RX2DataRate > 15, RX1DROffset > 7) is refused, or what is emitted has the specification's length with every other field in place. Non-trivial: join-accept with reserved RxDelay bits or CFList; data frame with FOpts and FPort.",
 		150000, 6000000, genRaw, checkRaw)
 }
